@@ -9,6 +9,7 @@ package c18
 import (
 	"fmt"
 	"sort"
+	"strings"
 	"testing"
 
 	"pgregory.net/rapid"
@@ -47,6 +48,33 @@ type c18Case struct {
 }
 
 func TestC18(t *testing.T) { pbt.Check(t, "C18", genC18, runC18) }
+
+// TestC13Transition re-uses the group-transition histories for property C13: signing requests made while a transition is
+// pending create a signing of the current group AND one of the incoming group; only the money checks count - a request pays
+// fee_per_signer x current threshold (within its limit), only the assignees of the current group's completed signing are
+// paid, the incoming group's signature is never paid - also when it completes after the transition record is gone.
+func TestC13Transition(t *testing.T) {
+	pbt.Check(t, "C13", genC18, func(c c18Case) *pbt.Verdict {
+		v := runC18(c)
+		money := map[string]bool{"C18/balance": true, "C18/incoming-paid": true, "C18/fee-over-limit": true, "C18/fee-amount": true}
+		if v.Violation != "" && v.Signature != "harness" {
+			if money[v.Signature] {
+				v.Signature = "C13/transition-" + strings.TrimPrefix(v.Signature, "C18/")
+			} else {
+				v.Count("donor_findings_ignored", 1)
+				v.Violation, v.Signature = "", ""
+			}
+		}
+		nt := false
+		for _, cl := range v.Classes {
+			if cl == "incoming-signing-completed" && c.Fee > 0 {
+				nt = true
+			}
+		}
+		v.NonTrivial = nt
+		return v
+	})
+}
 
 // ---- generator ----------------------------------------------------------------------------------------
 
@@ -300,8 +328,13 @@ func (g *opw) transitionSegment() {
 		}
 		g.emit(op{K: "end", A: 1})
 	}
-	g.emit(op{K: "req", A: gen.Uniform(rt, "u", nReq)})
+	g.emit(op{K: "req", A: gen.Uniform(rt, "u", nReq), B: gen.Pick(rt, "feevL", 8, 2, 1)})
 	g.end(true)
+	if gen.Chance(rt, "signAfterEnd", 1, 2) {
+		// the last request's signings are still open when the transition record is gone (executed or dropped): both are
+		// signed only now, newest first (the incoming group's, if any)
+		g.emit(op{K: "end", A: 1}, op{K: "sign", A: 0, Mask: 0xff}, op{K: "sign", A: 1, Mask: 0xff}, op{K: "end", A: 1})
+	}
 	g.after()
 }
 
